@@ -157,7 +157,9 @@ Proof.
   - assert (length (skipn (Z.to_nat pbw) data) <> 0%nat) by (rewrite E; discriminate). rewrite skipn_length in H0. lia.
 Qed.
 
-Notation LV := (Z * esContext * MuxerData * merror * list Z * gw * Z * Z * bool * bool)%type.
+(* the variables the loop assigns, in the order of their declarations: m.w, m.buf (fields), d, ctx, bytesWritten, n, err,
+   payloadStart, writeAf, payloadBytesWritten *)
+Notation LV := (gw * list Z * MuxerData * esContext * Z * Z * merror * bool * bool * Z)%type.
 
 Definition loop_post (bw : Z) (ctx : esContext) (w : gw) (escs : list (Z * esctx)) (key : Z) (r : loop_out)
     (g : WM (option G) LV) : Prop :=
@@ -165,7 +167,7 @@ Definition loop_post (bw : Z) (ctx : esContext) (w : gw) (escs : list (Z * esctx
   let w' := w ++ concat (pa_groups (lo_part r)) in
   let bw' := bw + pa_n (lo_part r) in
   match pa_res (lo_part r) with
-  | Ok _ => exists d' err' buf' n' pbw' ps' waf', g = ([], WVal (bw', ctx', d', err', buf', w', n', pbw', ps', waf'))
+  | Ok _ => exists d' err' buf' n' pbw' ps' waf', g = ([], WVal (w', buf', d', ctx', bw', n', err', ps', waf', pbw'))
   | Err c => exists d' buf' e, g = ([], WExit (Some (w', buf', ge_set escs key ctx', d', bw', e))) /\ werr e = Some c
   | Panic => True
   end.
@@ -272,7 +274,7 @@ Lemma loop_sim f : forall bw ctx d err force key buf escs pb pcc pv pm pmu pmt m
     pid es h cc af data left,
   inv d ctx waf pbw pid es h cc af data left ->
   loop_post bw ctx w escs key (wd_loop f pid h cc af ps left)
-    (gloop (S f) bw ctx d err force key buf escs C_MpegTsPacketSize pb pcc pv pm pmu pmt mb mcc mu mv cnt per w n ok pbw ps waf).
+    (gloop (S f) w C_MpegTsPacketSize per pm pmu pmt mu pv mv pcc mcc pb mb buf escs cnt d ctx key ok bw force n err ps waf pbw).
 Proof.
   induction f as [|k IH]; intros until left; intros I.
   all: destruct I as [Ipid (pes & hd & Hpes & Hdata & Hhd & Hfill) Ies Icc (Hleft & Hb) Iaf Iwaf].
@@ -377,8 +379,8 @@ Lemma rest_sim s1 bw c d err force buf pb pcc pv pm pmu pmt mb mcc mu mv cnt per
   let r := wd_rest s1 (mk_part (Ok tt) bw (groups_of w) []) c d in
   pa_res (snd r) <> Panic ->
   rest_ok s1 r
-    (grest (wd_fuel d) bw (ctx_gen c) d err force buf (ms_es s1) C_MpegTsPacketSize pb pcc pv pm pmu pmt mb mcc mu mv cnt per w n ok
-       0 true (negb (match MuxerData_AdaptationField d with Some _ => false | None => true end))).
+    (grest (wd_fuel d) w C_MpegTsPacketSize per pm pmu pmt mu pv mv pcc mcc pb mb buf (ms_es s1) cnt d (ctx_gen c) ok bw force n err
+       true (negb (match MuxerData_AdaptationField d with Some _ => false | None => true end)) 0).
 Proof.
   intros Hc r NP. subst r. unfold wd_rest in *. unfold grest, Muxer_WriteData_rest, wd_fuel.
   destruct (MuxerData_PES d) as [pes|] eqn:Hpes; [|exfalso; apply NP; reflexivity].
@@ -438,13 +440,13 @@ Definition wd_ret_src (s : mstate)
   let '(s', o) := wd_ret s x in Some (s', (mo_res o, mo_n o, concat (mo_groups o))).
 
 (* rest_: the generated remainder; None = it panicked or ran out of fuel *)
-Definition wd_rest_src (s : mstate) (bytesWritten : Z) (ctx : esContext) (d : MuxerData) (err : merror) (force : bool)
-    (buf : list Z) (escs : list (Z * esctx)) (ps : Z) (pbytes : list Z) (patcc patv : wrappingCounter) (pm : gpm)
-    (pmu : bool) (pmt : PMTData) (mbytes : list Z) (pmtcc : wrappingCounter) (pmtu : bool) (pmtv : wrappingCounter)
-    (cnt period : Z) (w : gw) (n : Z) (ok : bool) (pbw : Z) (pstart waf : bool) : option (mstate * flat_out) :=
+Definition wd_rest_src (s : mstate) (w : gw) (ps period : Z) (pm : gpm) (pmu : bool) (pmt : PMTData) (pmtu : bool)
+    (patv pmtv patcc pmtcc : wrappingCounter) (pbytes mbytes buf : list Z) (escs : list (Z * esctx)) (cnt : Z)
+    (d : MuxerData) (ctx : esContext) (ok : bool) (bytesWritten : Z) (force : bool) (n : Z) (err : merror)
+    (pstart waf : bool) (pbw : Z) : option (mstate * flat_out) :=
   let s1 := set_retransmit (set_tables s patv pmtv patcc pmtcc pmu pmtu) cnt in
-  match snd (grest (wd_fuel d) bytesWritten ctx d err force buf escs ps pbytes patcc patv pm pmu pmt mbytes pmtcc pmtu pmtv
-               cnt period w n ok pbw pstart waf) with
+  match snd (grest (wd_fuel d) w ps period pm pmu pmt pmtu patv pmtv patcc pmtcc pbytes mbytes buf escs cnt
+               d ctx ok bytesWritten force n err pstart waf pbw) with
   | Some (Some (w', _, escs', _, n', e)) => Some (set_es s1 escs', (werr_res e, n', w'))
   | _ => None
   end.
